@@ -318,6 +318,13 @@ class Program:
                 if isinstance(r, ClassInfo):
                     init = self.find_method(r, "__init__")
                     return [init] if init else []
+            # obj.method() on a non-self object: resolve when the method name is defined by exactly one
+            # class family of the package (pck1.by_binfile_output, pck.make_dir_tree ...)
+            if isinstance(v, ast.Name) and v.id not in m.imports and not node.attr.startswith("__"):
+                owners = [c for mm in self.modules.values() if mm.relpath not in self.excluded
+                          for c in mm.classes.values() if node.attr in c.methods]
+                if len(owners) == 1:
+                    return [owners[0].methods[node.attr]]
         return []
 
     # -- call graph -------------------------------------------------------------
